@@ -445,3 +445,24 @@ def mutable_default_mutation(fn: ast.FunctionDef) -> list[str]:
                 if isinstance(t, ast.Attribute) and isinstance(t.value, ast.Name) and t.value.id == "self":
                     hits.append(f"line {n.lineno}: the shared default object `{n.value.id}` is stored on self.{t.attr} (every instance built without the argument shares it)")
     return hits
+
+
+PINNED_WIDTHS = {"float16", "bfloat16", "float32", "float64", "int8", "int16", "int32", "int64", "uint8", "uint16", "uint32", "uint64"}
+
+
+def pinned_width_literals(fn: ast.AST) -> list[str]:
+    """`dtype=jnp.float32` / `.astype(jnp.int32)` and the like: a value built at a pinned bit width instead of the platform default
+    (`float` / `int`). Beside values of the default width it is either promoted away or - under 64-bit mode - rounds what it holds
+    (a discount factor kept at float32 in a float64 computation) or changes the dtype of a carried state against its own update."""
+    out = []
+    for c in ast.walk(fn):
+        if isinstance(c, ast.Call):
+            for kw in c.keywords:
+                if kw.arg == "dtype" and ((isinstance(kw.value, ast.Attribute) and kw.value.attr in PINNED_WIDTHS) or (isinstance(kw.value, ast.Constant) and kw.value.value in PINNED_WIDTHS)):
+                    out.append(f"line {c.lineno}: dtype={ast.unparse(kw.value)}")
+            if isinstance(c.func, ast.Attribute) and c.func.attr == "astype" and c.args and ((isinstance(c.args[0], ast.Attribute) and c.args[0].attr in PINNED_WIDTHS)
+                                                                                          or (isinstance(c.args[0], ast.Constant) and c.args[0].value in PINNED_WIDTHS)):
+                out.append(f"line {c.lineno}: astype({ast.unparse(c.args[0])})")
+            if isinstance(c.func, ast.Attribute) and c.func.attr in PINNED_WIDTHS and isinstance(c.func.value, ast.Name) and c.func.value.id in ("jnp", "np", "numpy"):
+                out.append(f"line {c.lineno}: {ast.unparse(c.func)}(...)")
+    return out
